@@ -525,3 +525,27 @@ def cases(tier, seed):
         add("comp.rejects", dict(what="mixed-size", d=d, seed=seed), "complementary_channel/rejects/mixed-size")
     add("comp.rejects", dict(what="empty"), "complementary_channel/rejects/empty")
     return out
+
+
+# =============================================================================================
+# frame part: E2 obligations (prover side) and the run-time frame clause (main agent)
+# =============================================================================================
+from props.C04_prove import prove_c05 as prove  # noqa: E402,F401
+from props.C04_prove import frame_cases as _frame_cases  # noqa: E402
+from props.frame_common import frame_generic as _frame_generic  # noqa: E402
+
+CLAUSES["frame.generic"] = _frame_generic
+_cases_bounded = cases
+
+
+def cases(tier, seed):  # noqa: F811
+    return _cases_bounded(tier, seed) + _frame_cases("C05", seed)
+
+
+LEVEL = "other"
+ENGINES = ["E2-frame", "E3-E4-rtc"]
+LEVEL_TEXT = ("Mixed. Proved (E2): the channel operations write through no reference reachable from their arguments (e.g. the caller's list of Kraus operators), so "
+              "representations can be reused and converted in any order. The representation-independence identities themselves are complete-per-configuration symbolic "
+              "(sympy entries through the real functions) and bounded numeric run-time contract checks; nothing else is proved.")
+EXPLANATION = LEVEL_TEXT
+TECHNIQUE = "frame clauses by taint analysis of the real AST (E2) + run-time-checked contracts on symbolic (sympy) and numeric inputs over a bounded domain"
